@@ -8,7 +8,7 @@ import datetime
 
 from .. import core, e1, clock
 from ..core import Result, outcome, enc, dec
-from ..tables.options import option_sets
+from ..tables.options import option_sets, option_combos
 
 ID = 'C01'
 TECHNIQUE = 'stateless bounded-deviation exhaustive exploration of the implementation (edit BFS)'
@@ -133,6 +133,7 @@ def work(item):
     res['transitions'] = transitions
     counts = collections.Counter()
     optsets, unknown = option_sets(name, m.validate)
+    optsets = optsets + option_combos(name, m.validate)
     iv_opts = set()
     for o in option_sets(name, m.validate, m.is_valid)[0]:
         iv_opts |= set(o)
